@@ -7,20 +7,26 @@ package supervisor_test
 // configuration changes.
 //
 // The real supervisor.MustNew / ObjectRegistry.run+applyConfig /
-// Supervisor.run+handleEvent and (in "traffic" mode) the real
-// TrafficController and RawConfigTrafficController run inside the bubble. A
-// feeder task pushes full configuration snapshots into the channel of a mocked
-// cluster syncer; four recording kinds (two business controllers, one
-// pipeline-category and one traffic-gate-category object) record every
+// Supervisor.run+handleEvent AND the real RawConfigTrafficController +
+// TrafficController run together inside the bubble, i.e. the object registry
+// serves both of its production watchers at once. A feeder task pushes full
+// configuration snapshots into the channel of a mocked cluster syncer; four
+// recording kinds (two business controllers, handled by Supervisor; one
+// pipeline-category and one traffic-gate-category object, handled by
+// RawConfigTrafficController/TrafficController) record every
 // Init/Inherit/Close with instance identities and may panic at drawn calls.
 //
-// Oracle (written from the property statement): per object name the recorded
-// call sequence must equal the sequence derived from the snapshot sequence
-// (appear -> Init on a fresh instance, spec change -> Inherit on a fresh
-// instance with the previous live instance as predecessor, unchanged ->
-// nothing, disappear -> Close of the live instance, kind change -> Close(old)
-// then Init(new)); at every quiescent point the controllers' registries hold
-// exactly the objects of the last snapshot.
+// Oracle (written from the property statement): every name has one lifecycle
+// per controller domain (business controllers | traffic objects), because the
+// two domains are reconciled by two independent goroutines whose relative
+// order the statement does not fix. Per (name, domain) the recorded call
+// sequence must equal the sequence derived from the snapshot sequence (appear
+// -> Init on a fresh instance, spec change -> Inherit on a fresh instance with
+// the previous live instance as predecessor, unchanged -> nothing, disappear
+// -> Close of the live instance, kind change inside the domain -> Close(old)
+// then Init(new), kind change across domains -> Close(old) in the old domain
+// and Init(new) in the new one); at every quiescent point each controller
+// holds exactly the objects of its domain in the last snapshot.
 //
 // The harness is an EXTERNAL test package because trafficcontroller and
 // rawconfigtrafficcontroller import package supervisor; c20_export_test.go is
@@ -34,33 +40,24 @@ package supervisor_test
 //     instance are accepted as the next predecessor / Close target.
 //   * "spec unchanged" includes a textually different but YAML-equivalent
 //     document (key order, quoting).
-//   * kinds of a category nobody watches in the run's mode are "unmanaged":
-//     no call at all is expected on them.
+//   * a change of kind inside one domain must close the old object before the
+//     new one is initialised (a name never has two live objects); across
+//     domains the order of Close(old) and Init(new) is free.
 //   * shutdown (Supervisor.Close) is not judged.
-//   * production code ranges over Go maps, so the relative order of calls on
-//     DIFFERENT names inside one snapshot is not judged and never logged in
-//     arrival order; callbacks gate and sleep identically for all objects, so
-//     that the schedule does not depend on the map order either. For the same
-//     reason only one registry watcher exists at a time: "biz" mode runs the
-//     supervisor's own watcher without RawConfigTrafficController, "traffic"
-//     mode runs RawConfigTrafficController's watcher with the supervisor's
-//     watcher closed.
-//   * snapshots applied before the supervisor's watcher exists are folded
-//     into the watcher's first event (state based, legitimate); only the first
-//     snapshot is ever sent that early, so the expected calls do not depend
-//     on whether it was folded.
-//   * in runs that contain a change of kind a snapshot changes at most one
-//     name (the mishandled kind change takes irregular code paths; mixed with
-//     regular names in one event the schedule would depend on map order).
-//     Everything that goes wrong on a name at or after an expected change of
-//     kind is reported as C20.kind-change and the name is not judged further.
+//   * snapshots applied before a watcher exists are folded into that watcher's
+//     first event (state based, legitimate); only the first snapshot is ever
+//     sent that early, so the expected calls do not depend on whether it was
+//     folded.
+//   * production map ranges are made reproducible by check.json "map_ranges";
+//     the per-run log is nevertheless written sorted per name.
 //
-// Violation classes: C20.kind-change (known suspicion, confirmed),
-// C20.init-missing / inherit-missing / close-missing, C20.init-duplicate,
-// C20.close-duplicate, C20.untouched, C20.spurious-<op>, C20.wrong-spec,
-// C20.instance-reuse, C20.predecessor, C20.close-wrong-instance,
-// C20.panic-isolation (a call is missing in a snapshot in which another
-// name's callback panicked), C20.live-set, C20.not-reconciled, C20.deadlock.
+// Violation classes: C20.kind-change (a call required by a change of kind is
+// missing or replaced), C20.init-missing / inherit-missing / close-missing,
+// C20.init-duplicate, C20.close-duplicate, C20.untouched, C20.spurious-<op>,
+// C20.wrong-spec, C20.instance-reuse, C20.predecessor,
+// C20.close-wrong-instance, C20.panic-isolation (a call is missing in a
+// snapshot in which another object's callback panicked), C20.live-set,
+// C20.not-reconciled, C20.deadlock, C20.process-crash (framework).
 
 import (
 	"fmt"
@@ -105,7 +102,7 @@ type c20Panic struct {
 
 type c20ROp struct {
 	GapUs int64  `json:"gap_us"`
-	Op    string `json:"op"` // walk | get | list
+	Op    string `json:"op"` // walk | getbiz | gettrf | list
 	Name  string `json:"name"`
 }
 
@@ -114,12 +111,11 @@ type c20Reader struct {
 }
 
 type c20Scenario struct {
-	Mode      string      `json:"mode"` // biz | traffic
 	ChanCap   int         `json:"chan_cap"`
 	EarlyFeed bool        `json:"early_feed"`
 	Snaps     []c20Snap   `json:"snaps"`
 	Panics    []c20Panic  `json:"panics"`
-	DelaysUs  []int64     `json:"delays_us"` // delay of the i-th callback overall (cyclic), object independent
+	DelaysUs  []int64     `json:"delays_us"` // delay of the i-th callback overall (cyclic)
 	Readers   []c20Reader `json:"readers"`
 }
 
@@ -130,37 +126,39 @@ const (
 	c20KindGate = "C20Gate"
 )
 
-var c20Kinds = map[string]bool{c20KindBizA: true, c20KindBizB: true, c20KindPipe: true, c20KindGate: true}
+var c20AllKinds = []string{c20KindBizA, c20KindBizB, c20KindPipe, c20KindGate}
 
-func c20Managed(mode string) map[string]bool {
-	if mode == "traffic" {
-		return map[string]bool{c20KindPipe: true, c20KindGate: true}
+// c20Domain tells which controller is responsible for a kind: "biz" =
+// Supervisor (business controllers), "trf" = RawConfigTrafficController +
+// TrafficController (pipeline / traffic gate categories).
+func c20Domain(kind string) string {
+	switch kind {
+	case c20KindBizA, c20KindBizB:
+		return "biz"
+	case c20KindPipe, c20KindGate:
+		return "trf"
 	}
-	return map[string]bool{c20KindBizA: true, c20KindBizB: true}
+	return ""
 }
 
+var c20Domains = []string{"biz", "trf"}
+
 func c20Gen(rng *sim.Rand, tier string) interface{} {
-	sc := &c20Scenario{Mode: "biz"}
-	if rng.Bool(0.4) {
-		sc.Mode = "traffic"
-	}
-	man, unman := []string{c20KindBizA, c20KindBizB}, []string{c20KindPipe, c20KindGate}
-	if sc.Mode == "traffic" {
-		man, unman = unman, man
-	}
+	sc := &c20Scenario{}
 	names := []string{"n1", "n2", "n3", "n4"}[:rng.Pick(1, 2, 2, 3, 3, 4, 4)]
-	kc := rng.Bool(0.12)
-	base := map[string]string{}
-	for _, n := range names {
-		base[n] = man[rng.Intn(2)]
-		if rng.Bool(0.08) {
-			base[n] = unman[rng.Intn(2)]
-		}
+	kc := rng.Bool(0.35)
+	// kinds available to the run (swarm): one domain only, or both
+	kinds := c20AllKinds
+	switch rng.Intn(5) {
+	case 0:
+		kinds = c20AllKinds[:2]
+	case 1:
+		kinds = c20AllKinds[2:]
 	}
 	wUnch, wChange, wGone := rng.Pick(15, 40, 70), rng.Pick(10, 25, 45), rng.Pick(5, 15, 30)
 	wKC := 0
 	if kc {
-		wKC = rng.Pick(5, 15)
+		wKC = rng.Pick(5, 15, 30)
 	}
 	appearP := float64(rng.Pick(30, 50, 85)) / 100
 	altP := float64(rng.Pick(0, 10, 30)) / 100
@@ -172,12 +170,11 @@ func c20Gen(rng *sim.Rand, tier string) interface{} {
 	state := map[string]*cur{}
 	maxRev := map[string]int{}
 	for _, n := range names {
-		state[n] = &cur{kind: base[n]}
+		state[n] = &cur{kind: kinds[rng.Intn(len(kinds))]}
 	}
 	otherKind := func(k string) string {
-		all := []string{man[0], man[1], man[0], man[1], unman[0], unman[1]}
 		for {
-			c := all[rng.Intn(len(all))]
+			c := kinds[rng.Intn(len(kinds))]
 			if c != k {
 				return c
 			}
@@ -185,8 +182,8 @@ func c20Gen(rng *sim.Rand, tier string) interface{} {
 	}
 	nsnap := rng.Range(2, 12)
 	// backlog runs: many snapshots pushed at once while the first callbacks are
-	// slow, so that the watcher's event queue (and the syncer channel) fill up
-	backlog := !kc && rng.Bool(0.08)
+	// slow, so that the watchers' event queues (and the syncer channel) fill up
+	backlog := rng.Bool(0.08)
 	if backlog {
 		nsnap = rng.Range(12, 18)
 		wUnch, wChange, wGone, appearP = 5, 45, 20, 0.85
@@ -196,20 +193,8 @@ func c20Gen(rng *sim.Rand, tier string) interface{} {
 		if backlog {
 			sn.GapUs, sn.Settle = 0, false
 		}
-		changed := false
 		for _, n := range names {
 			c := state[n]
-			// In runs with changes of kind a snapshot changes at most one name:
-			// the (mis)handling of a changed kind takes other code paths than
-			// the regular ones, and together with the random order of the
-			// production code's map ranges the schedule would not be replayable
-			// if two names of different "shape" sat in one event.
-			if kc && changed {
-				if c.present {
-					sn.Objs = append(sn.Objs, c20Obj{Name: n, Kind: c.kind, Rev: c.rev, Alt: rng.Bool(altP)})
-				}
-				continue
-			}
 			if !c.present {
 				p := appearP
 				if i == 0 {
@@ -218,7 +203,6 @@ func c20Gen(rng *sim.Rand, tier string) interface{} {
 				if !rng.Bool(p) {
 					continue
 				}
-				changed = true
 				c.present = true
 				if kc && rng.Bool(0.3) {
 					c.kind = otherKind(c.kind)
@@ -232,15 +216,12 @@ func c20Gen(rng *sim.Rand, tier string) interface{} {
 				switch {
 				case x < wUnch:
 				case x < wUnch+wChange:
-					changed = true
 					maxRev[n]++
 					c.rev = maxRev[n]
 				case x < wUnch+wChange+wGone:
-					changed = true
 					c.present = false
 					continue
 				default:
-					changed = true
 					c.kind = otherKind(c.kind)
 					if rng.Bool(0.5) {
 						maxRev[n]++
@@ -265,14 +246,14 @@ func c20Gen(rng *sim.Rand, tier string) interface{} {
 		sc.DelaysUs = []int64{int64(rng.Pick(20000, 100000)), 0, 0}
 		sc.ChanCap = rng.Pick(0, 4, 16)
 	}
-	sc.EarlyFeed = sc.Mode == "biz" && rng.Bool(0.4)
+	sc.EarlyFeed = rng.Bool(0.4)
 	if sc.EarlyFeed && sc.ChanCap == 0 {
 		sc.ChanCap = 1
 	}
 	for i, k := 0, rng.Pick(0, 0, 1, 2); i < k; i++ {
 		var rd c20Reader
 		for j, m := 0, rng.Range(1, 6); j < m; j++ {
-			rd.Ops = append(rd.Ops, c20ROp{GapUs: int64(rng.Pick(0, 1, 50, 1000, 3000)), Op: rng.PickStr("walk", "get", "list"), Name: names[rng.Intn(len(names))]})
+			rd.Ops = append(rd.Ops, c20ROp{GapUs: int64(rng.Pick(0, 1, 50, 1000, 3000)), Op: rng.PickStr("walk", "getbiz", "gettrf", "list"), Name: names[rng.Intn(len(names))]})
 		}
 		sc.Readers = append(sc.Readers, rd)
 	}
@@ -314,7 +295,7 @@ func (c *c20Call) String() string {
 type c20State struct {
 	r      *sim.Run
 	nextID map[string]int
-	calls  map[string][]*c20Call // per object name, in call order
+	calls  map[string][]*c20Call // per "<name>/<domain>", in call order
 	late   int                   // calls during shutdown (not judged)
 	opN    map[string]int
 	plan   map[string]bool
@@ -350,7 +331,7 @@ func (b *c20Rec) ident(st *c20State) string {
 	return b.id
 }
 
-func (b *c20Rec) hook(op string, spec *supervisor.Spec, prev supervisor.Object) {
+func (b *c20Rec) hook(dom, op string, spec *supervisor.Spec, prev supervisor.Object) {
 	st := c20cur
 	if st == nil {
 		return
@@ -381,9 +362,9 @@ func (b *c20Rec) hook(op string, spec *supervisor.Spec, prev supervisor.Object) 
 	key := name + "|" + op
 	st.opN[key]++
 	call.Panicked = st.plan[fmt.Sprintf("%s|%d", key, st.opN[key])]
-	st.calls[name] = append(st.calls[name], call)
+	st.calls[name+"/"+dom] = append(st.calls[name+"/"+dom], call)
 	st.total++
-	// the same gate and an object-independent delay for every callback
+	// a gate and a drawn delay in every callback
 	var d int64
 	if len(st.delays) > 0 {
 		d = st.delays[st.cbN%len(st.delays)]
@@ -400,21 +381,22 @@ func (b *c20Rec) DefaultSpec() interface{} { return &c20Spec{} }
 func (b *c20Rec) Status() *supervisor.Status {
 	return &supervisor.Status{ObjectStatus: map[string]string{}}
 }
-func (b *c20Rec) Close() { b.hook("close", nil, nil) }
 
 type c20Ctl struct{ c20Rec }
 
-func (c *c20Ctl) Init(s *supervisor.Spec) { c.hook("init", s, nil) }
+func (c *c20Ctl) Init(s *supervisor.Spec) { c.hook("biz", "init", s, nil) }
 func (c *c20Ctl) Inherit(s *supervisor.Spec, prev supervisor.Object) {
-	c.hook("inherit", s, prev)
+	c.hook("biz", "inherit", s, prev)
 }
+func (c *c20Ctl) Close() { c.hook("biz", "close", nil, nil) }
 
 type c20Trf struct{ c20Rec }
 
-func (c *c20Trf) Init(s *supervisor.Spec, m context.MuxMapper) { c.hook("init", s, nil) }
+func (c *c20Trf) Init(s *supervisor.Spec, m context.MuxMapper) { c.hook("trf", "init", s, nil) }
 func (c *c20Trf) Inherit(s *supervisor.Spec, prev supervisor.Object, m context.MuxMapper) {
-	c.hook("inherit", s, prev)
+	c.hook("trf", "inherit", s, prev)
 }
+func (c *c20Trf) Close() { c.hook("trf", "close", nil, nil) }
 
 type c20BizA struct{ c20Ctl }
 type c20BizB struct{ c20Ctl }
@@ -470,7 +452,7 @@ func (e *c20Exp) String() string {
 func c20SnapMap(sn c20Snap) map[string]c20Obj {
 	m := map[string]c20Obj{}
 	for _, o := range sn.Objs {
-		if o.Name == "" || !c20Kinds[o.Kind] {
+		if o.Name == "" || strings.ContainsAny(o.Name, "/|?") || c20Domain(o.Kind) == "" {
 			continue
 		}
 		m[o.Name] = o
@@ -494,8 +476,10 @@ func c20SortedNames(ms ...map[string]c20Obj) []string {
 }
 
 // c20Expect derives, from the snapshot sequence alone, the calls the
-// statement requires for every name (snapshots 0..upto).
-func c20Expect(sc *c20Scenario, managed map[string]bool, upto int) map[string][]*c20Exp {
+// statement requires for every "<name>/<domain>" (snapshots 0..upto). From the
+// point of view of one domain a name is present while its kind belongs to the
+// domain.
+func c20Expect(sc *c20Scenario, upto int) map[string][]*c20Exp {
 	out := map[string][]*c20Exp{}
 	prev := map[string]c20Obj{}
 	for i := 0; i <= upto && i < len(sc.Snaps); i++ {
@@ -503,25 +487,20 @@ func c20Expect(sc *c20Scenario, managed map[string]bool, upto int) map[string][]
 		for _, n := range c20SortedNames(prev, cur) {
 			p, was := prev[n]
 			c, is := cur[n]
-			switch {
-			case !was && is:
-				if managed[c.Kind] {
-					out[n] = append(out[n], &c20Exp{"init", c.Kind, c.Rev, i, false})
-				}
-			case was && !is:
-				if managed[p.Kind] {
-					out[n] = append(out[n], &c20Exp{"close", p.Kind, p.Rev, i, false})
-				}
-			case p.Kind != c.Kind:
-				if managed[p.Kind] {
-					out[n] = append(out[n], &c20Exp{"close", p.Kind, p.Rev, i, true})
-				}
-				if managed[c.Kind] {
-					out[n] = append(out[n], &c20Exp{"init", c.Kind, c.Rev, i, true})
-				}
-			case p.Rev != c.Rev:
-				if managed[c.Kind] {
-					out[n] = append(out[n], &c20Exp{"inherit", c.Kind, c.Rev, i, false})
+			kc := was && is && p.Kind != c.Kind
+			for _, d := range c20Domains {
+				key := n + "/" + d
+				wasD := was && c20Domain(p.Kind) == d
+				isD := is && c20Domain(c.Kind) == d
+				switch {
+				case !wasD && isD:
+					out[key] = append(out[key], &c20Exp{"init", c.Kind, c.Rev, i, kc})
+				case wasD && !isD:
+					out[key] = append(out[key], &c20Exp{"close", p.Kind, p.Rev, i, kc})
+				case wasD && isD && kc:
+					out[key] = append(out[key], &c20Exp{"close", p.Kind, p.Rev, i, true}, &c20Exp{"init", c.Kind, c.Rev, i, true})
+				case wasD && isD && p.Rev != c.Rev:
+					out[key] = append(out[key], &c20Exp{"inherit", c.Kind, c.Rev, i, false})
 				}
 			}
 		}
@@ -539,11 +518,11 @@ type c20Verdict struct {
 	miss  bool            // an expected call is missing / replaced
 	ok    map[string]bool // acceptable current instances after the matched prefix
 	live  bool
-	kc    bool // the name went through a change of kind in the judged prefix
 }
 
-// c20Walk compares the expected and the recorded call sequence of one name.
-func c20Walk(exp []*c20Exp, act []*c20Call, panicSnaps map[int]map[string]bool, name string) *c20Verdict {
+// c20Walk compares the expected and the recorded call sequence of one
+// "<name>/<domain>".
+func c20Walk(exp []*c20Exp, act []*c20Call, panicSnaps map[int]map[string]bool, key string) *c20Verdict {
 	v := &c20Verdict{ok: map[string]bool{}}
 	var curKind string
 	curRev := 0
@@ -557,12 +536,9 @@ func c20Walk(exp []*c20Exp, act []*c20Call, panicSnaps map[int]map[string]bool, 
 			a = act[i]
 		}
 		v.e = e
-		if e != nil && e.KC {
-			v.kc = true
-		}
 		switch {
 		case e != nil && e.KC && (a == nil || a.Op != e.Op || a.Kind != e.Kind || a.Rev != e.Rev):
-			v.class = "C20.kind-change"
+			v.class, v.miss = "C20.kind-change", true
 			got := "no call"
 			if a != nil {
 				got = a.String()
@@ -631,7 +607,7 @@ func c20Walk(exp []*c20Exp, act []*c20Call, panicSnaps map[int]map[string]bool, 
 			if panicSnaps[e.Snap] == nil {
 				panicSnaps[e.Snap] = map[string]bool{}
 			}
-			panicSnaps[e.Snap][name] = true
+			panicSnaps[e.Snap][key] = true
 		}
 	}
 	v.e = nil
@@ -678,15 +654,10 @@ func c20Exec(r *sim.Run, sci interface{}) {
 	if len(sc.Snaps) == 0 {
 		return
 	}
-	if sc.Mode != "traffic" {
-		sc.Mode = "biz"
-	}
 	if sc.ChanCap < 0 || sc.ChanCap > 64 {
 		sc.ChanCap = 0
 	}
-	r.MultiClass = true // the known kind-change finding must not mask other classes
-	traffic := sc.Mode == "traffic"
-	managed := c20Managed(sc.Mode)
+	r.MultiClass = true
 	st := &c20State{r: r, nextID: map[string]int{}, calls: map[string][]*c20Call{}, opN: map[string]int{}, plan: map[string]bool{}}
 	for _, p := range sc.Panics {
 		st.plan[fmt.Sprintf("%s|%s|%d", p.Name, p.Op, p.Nth)] = true
@@ -699,10 +670,6 @@ func c20Exec(r *sim.Run, sci interface{}) {
 	}
 	c20cur = st
 	defer func() { c20cur = nil }()
-
-	supervisor.C20KeepSystemControllers(func(kind string) bool {
-		return traffic && (kind == trafficcontroller.Kind || kind == rawconfigtrafficcontroller.Kind)
-	})
 
 	ch := make(chan map[string]string, sc.ChanCap)
 	layout := &cluster.Layout{}
@@ -717,48 +684,53 @@ func c20Exec(r *sim.Run, sci interface{}) {
 
 	// expected number of calls after each snapshot (for the backlog probe)
 	cum := make([]int, len(sc.Snaps))
-	{
-		all := c20Expect(sc, managed, len(sc.Snaps)-1)
-		for _, es := range all {
-			for _, e := range es {
-				cum[e.Snap]++
-			}
+	for _, es := range c20Expect(sc, len(sc.Snaps)-1) {
+		for _, e := range es {
+			cum[e.Snap]++
 		}
-		for i := 1; i < len(cum); i++ {
-			cum[i] += cum[i-1]
-		}
+	}
+	for i := 1; i < len(cum); i++ {
+		cum[i] += cum[i-1]
 	}
 
 	var super *supervisor.Supervisor
 	var tc *trafficcontroller.TrafficController
 	ready := false
-	done := map[string]bool{}    // names no longer judged (reported or tainted)
-	tainted := map[string]bool{} // names after an unhandled change of kind
+	done := map[string]bool{} // keys no longer judged (already reported)
 	reported := map[string]bool{}
 	stuck := false
+	const ns = rawconfigtrafficcontroller.DefaultNamespace
 
-	report := func(class, name string, upto int, format string, a ...interface{}) {
-		done[name] = true
-		if class == "C20.kind-change" {
-			tainted[name] = true
-		}
-		if reported[class+"|"+name] {
+	report := func(class, key string, upto int, format string, a ...interface{}) {
+		done[key] = true
+		if reported[class+"|"+key] {
 			return
 		}
-		reported[class+"|"+name] = true
-		r.Violate(class, "name %s (mode %s): %s\nrecorded calls of %s: %s\nsnapshots: %s", name, sc.Mode, fmt.Sprintf(format, a...), name,
-			c20History(st.calls[name]), c20Snapshots(sc, upto))
+		reported[class+"|"+key] = true
+		name := key
+		if i := strings.IndexByte(key, '/'); i > 0 {
+			name = key[:i]
+		}
+		var other []string
+		for _, d := range c20Domains {
+			if k := name + "/" + d; k != key && len(st.calls[k]) > 0 {
+				other = append(other, fmt.Sprintf("\nrecorded calls of %s: %s", k, c20History(st.calls[k])))
+			}
+		}
+		r.Violate(class, "object %s (name/controller domain): %s\nrecorded calls of %s: %s%s\nsnapshots: %s", key, fmt.Sprintf(format, a...), key,
+			c20History(st.calls[key]), strings.Join(other, ""), c20Snapshots(sc, upto))
 	}
 
-	lookup := func(name string) *supervisor.ObjectEntity {
-		if traffic {
+	// lookup returns what the controller of a domain holds under a name.
+	lookup := func(name, dom string) *supervisor.ObjectEntity {
+		if dom == "trf" {
 			if tc == nil {
 				return nil
 			}
-			if e, ok := tc.GetTrafficGate(rawconfigtrafficcontroller.DefaultNamespace, name); ok {
+			if e, ok := tc.GetTrafficGate(ns, name); ok {
 				return e
 			}
-			if e, ok := tc.GetPipeline(rawconfigtrafficcontroller.DefaultNamespace, name); ok {
+			if e, ok := tc.GetPipeline(ns, name); ok {
 				return e
 			}
 			return nil
@@ -772,75 +744,68 @@ func c20Exec(r *sim.Run, sci interface{}) {
 	// judge compares everything recorded so far with what snapshots 0..upto
 	// require. Only called when the system is quiescent.
 	judge := func(upto int) {
-		exp := c20Expect(sc, managed, upto)
-		nameSet := map[string]bool{}
+		exp := c20Expect(sc, upto)
+		keySet := map[string]bool{}
 		for i := 0; i <= upto && i < len(sc.Snaps); i++ {
 			for n := range c20SnapMap(sc.Snaps[i]) {
-				nameSet[n] = true
+				for _, d := range c20Domains {
+					keySet[n+"/"+d] = true
+				}
 			}
 		}
-		for n := range st.calls {
-			nameSet[n] = true
+		for k := range st.calls {
+			keySet[k] = true
 		}
-		names := make([]string, 0, len(nameSet))
-		for n := range nameSet {
-			names = append(names, n)
+		keys := make([]string, 0, len(keySet))
+		for k := range keySet {
+			keys = append(keys, k)
 		}
-		sort.Strings(names)
+		sort.Strings(keys)
 		panicSnaps := map[int]map[string]bool{}
 		verdicts := map[string]*c20Verdict{}
-		for _, n := range names {
-			if done[n] {
+		for _, k := range keys {
+			if done[k] || strings.HasPrefix(k, "?") {
 				continue
 			}
-			verdicts[n] = c20Walk(exp[n], st.calls[n], panicSnaps, n)
+			verdicts[k] = c20Walk(exp[k], st.calls[k], panicSnaps, k)
 		}
 		last := map[string]c20Obj{}
 		if upto < len(sc.Snaps) {
 			last = c20SnapMap(sc.Snaps[upto])
 		}
-		for _, n := range names {
-			v := verdicts[n]
+		for _, k := range keys {
+			v := verdicts[k]
 			if v == nil {
 				continue
 			}
 			if v.class != "" {
 				class := v.class
-				if v.kc {
-					// everything that goes wrong on a name at or after an expected
-					// change of kind is attributed to the kind-change handling
-					if class != "C20.kind-change" {
-						v.msg += " [" + class + " at or after a change of kind of this name]"
-					}
-					class = "C20.kind-change"
-				} else if v.miss && v.e != nil {
+				if v.miss && v.e != nil && class != "C20.kind-change" {
 					for other := range panicSnaps[v.e.Snap] {
-						if other != n {
+						if other != k {
 							class = "C20.panic-isolation"
 							v.msg += fmt.Sprintf(" (a callback of %s panicked while snapshot s%d was reconciled)", other, v.e.Snap)
 							break
 						}
 					}
 				}
-				report(class, n, upto, "%s", v.msg)
+				report(class, k, upto, "%s", v.msg)
 				continue
 			}
-			// live set: the controller's registry holds exactly the last snapshot
-			if !ready {
+			// live set: the domain's controller holds exactly the last snapshot
+			i := strings.IndexByte(k, '/')
+			if !ready || i <= 0 || strings.HasPrefix(k, "?") {
 				continue
 			}
-			want, present := last[n]
-			wantLive := present && managed[want.Kind]
-			ent := lookup(n)
-			lsClass := "C20.live-set"
-			if v.kc {
-				lsClass = "C20.kind-change"
-			}
+			name, dom := k[:i], k[i+1:]
+			want, present := last[name]
+			wantLive := present && c20Domain(want.Kind) == dom
+			ent := lookup(name, dom)
 			switch {
 			case wantLive && ent == nil:
-				report(lsClass, n, upto, "in the last applied snapshot s%d as %s/r%d but not held by its controller", upto, want.Kind, want.Rev)
+				report("C20.live-set", k, upto, "in the last applied snapshot s%d as %s/r%d but not held by its controller", upto, want.Kind, want.Rev)
 			case !wantLive && ent != nil:
-				report(lsClass, n, upto, "not a managed object of the last applied snapshot s%d but its controller still holds %s", upto, ent.Spec().Kind())
+				report("C20.live-set", k, upto, "no object of this domain in the last applied snapshot s%d but the controller still holds %s", upto, ent.Spec().Kind())
 			case wantLive:
 				id := "foreign"
 				if p, ok := ent.Instance().(c20Ident); ok {
@@ -851,23 +816,30 @@ func c20Exec(r *sim.Run, sci interface{}) {
 					rev = s.Rev
 				}
 				if ent.Spec().Kind() != want.Kind || rev != want.Rev || !v.ok[id] {
-					report(lsClass, n, upto, "controller holds instance #%s with spec %s/r%d, the last applied snapshot s%d wants %s/r%d as instance %v",
+					report("C20.live-set", k, upto, "controller holds instance #%s with spec %s/r%d, the last applied snapshot s%d wants %s/r%d as instance %v",
 						id, ent.Spec().Kind(), rev, upto, want.Kind, want.Rev, c20Keys(v.ok))
 				}
 			}
 		}
+		// calls on an instance that never got a spec (Close before Init/Inherit)
+		for _, k := range keys {
+			if strings.HasPrefix(k, "?") && !done[k] && len(st.calls[k]) > 0 {
+				report("C20.close-wrong-instance", k, upto, "an instance that was never initialised was closed")
+			}
+		}
 	}
 
-	// settle waits until the whole system is quiescent: the scheduler's stalls
-	// sum up to at most 20 minutes of simulated time, so a sleep of two hours
-	// can only end when every other goroutine is blocked with nothing parked.
+	// settle waits until the whole system is quiescent: a sleep of two hours
+	// during which the scheduler stalled for less than that can only end when
+	// every other goroutine is blocked with nothing parked.
 	settle := func() bool {
-		for i := 0; i < 3; i++ {
+		for i := 0; i < 4; i++ {
+			before := r.StalledFor()
 			r.Sleep(2 * time.Hour)
 			if r.Aborted() {
 				return false
 			}
-			if !ready {
+			if !ready || r.StalledFor()-before >= 2*time.Hour {
 				continue
 			}
 			_, ev, sn := supervisor.C20Pending(super)
@@ -879,7 +851,7 @@ func c20Exec(r *sim.Run, sci interface{}) {
 	}
 
 	sent := -1
-	earlyApplied := false
+	earlyQueued := false
 	feeder := func() {
 		for i, sn := range sc.Snaps {
 			if r.Aborted() || stuck {
@@ -890,10 +862,9 @@ func c20Exec(r *sim.Run, sci interface{}) {
 				gap = 0
 			}
 			r.Sleep(time.Duration(gap) * time.Microsecond)
-			// Snapshots applied before the supervisor's watcher exists are
-			// legitimately folded into its first event; only the first
-			// snapshot may be that early, so that the expected calls do not
-			// depend on it.
+			// Snapshots applied before a watcher exists are legitimately
+			// folded into its first event; only the first snapshot may be that
+			// early, so that the expected calls do not depend on it.
 			for i > 0 && !ready && !r.Aborted() {
 				r.Sleep(time.Microsecond)
 			}
@@ -905,7 +876,7 @@ func c20Exec(r *sim.Run, sci interface{}) {
 			ch <- m
 			sent = i
 			if !ready {
-				earlyApplied = true
+				earlyQueued = true
 			}
 			if i > 0 && st.total < cum[i-1] {
 				r.Probe("c20.snapshot_sent_while_backlog")
@@ -918,15 +889,15 @@ func c20Exec(r *sim.Run, sci interface{}) {
 				if ev >= 10 {
 					r.Probe("c20.watcher_event_queue_full")
 				}
-				if w != 1 {
-					r.Violate("C20.harness", "expected exactly one registry watcher, found %d", w)
+				if w != 2 {
+					r.Violate("C20.harness", "expected the two production watchers, found %d", w)
 				}
 			}
 			if sn.Settle || i == len(sc.Snaps)-1 {
 				if !settle() {
 					if !r.Aborted() {
 						stuck = true
-						r.Violate("C20.not-reconciled", "snapshots or watcher events are still pending after 6 hours of simulated quiescence (sent s%d)\nsnapshots: %s", i, c20Snapshots(sc, i))
+						r.Violate("C20.not-reconciled", "snapshots or watcher events are still pending after 8 hours of simulated quiescence (sent s%d)\nsnapshots: %s", i, c20Snapshots(sc, i))
 					}
 					return
 				}
@@ -936,28 +907,24 @@ func c20Exec(r *sim.Run, sci interface{}) {
 	}
 
 	started := false
-	if sc.EarlyFeed && !traffic {
+	if sc.EarlyFeed {
 		started = true
 		r.Go("feeder", feeder)
 		// let the first snapshot sit in the channel before the registry is
-		// created: the registry's first applyConfig then races with the
-		// supervisor's NewWatcher (objects arrive in the watcher's first event
-		// or in a regular event)
+		// created: the registry's first applyConfig then races with the two
+		// NewWatcher calls (objects arrive in a watcher's first event or in a
+		// regular event)
 		for sc.ChanCap >= 1 && sent < 0 && !r.Aborted() {
 			r.Sleep(time.Microsecond)
 		}
 	}
 	super = supervisor.MustNew(&option.Options{AbsHomeDir: "/nonexistent-verif-c20"}, cls)
-	if traffic {
-		// one watcher at a time (see header): RawConfigTrafficController's
-		super.ObjectRegistry().CloseWatcher(supervisor.C20SupervisorWatcherName)
-		if e, ok := super.GetSystemController(trafficcontroller.Kind); ok {
-			tc, _ = e.Instance().(*trafficcontroller.TrafficController)
-		}
-		if tc == nil {
-			r.Violate("C20.harness", "TrafficController system controller missing")
-			return
-		}
+	if e, ok := super.GetSystemController(trafficcontroller.Kind); ok {
+		tc, _ = e.Instance().(*trafficcontroller.TrafficController)
+	}
+	if _, ok := super.GetSystemController(rawconfigtrafficcontroller.Kind); !ok || tc == nil {
+		r.Violate("C20.harness", "TrafficController / RawConfigTrafficController system controllers missing")
+		return
 	}
 	ready = true
 	if !started {
@@ -979,20 +946,11 @@ func c20Exec(r *sim.Run, sci interface{}) {
 				case "walk":
 					super.WalkControllers(func(e *supervisor.ObjectEntity) bool { _ = e.Spec().Name(); return true })
 				case "list":
-					if traffic {
-						tc.ListTrafficGates(rawconfigtrafficcontroller.DefaultNamespace)
-					} else {
-						super.WalkControllers(func(e *supervisor.ObjectEntity) bool { return false })
-					}
+					tc.ListTrafficGates(ns)
+				case "gettrf":
+					lookup(op.Name, "trf")
 				default:
-					// same gates whatever the answer: which names are stored at
-					// this instant depends on the map order of the event loops
-					if traffic {
-						tc.GetTrafficGate(rawconfigtrafficcontroller.DefaultNamespace, op.Name)
-						tc.GetPipeline(rawconfigtrafficcontroller.DefaultNamespace, op.Name)
-					} else {
-						super.GetBusinessController(op.Name)
-					}
+					lookup(op.Name, "biz")
 				}
 			}
 		})
@@ -1008,24 +966,23 @@ func c20Exec(r *sim.Run, sci interface{}) {
 		wg.Wait()
 	}
 
-	// ---- probes, signature, log (sorted: independent of map iteration order)
-	if earlyApplied {
+	// ---- probes, signature, log (sorted per name)
+	if earlyQueued {
 		r.Probe("c20.snapshot_queued_before_MustNew_returned")
 	}
-	names := make([]string, 0, len(st.calls))
-	for n := range st.calls {
-		names = append(names, n)
+	keys := make([]string, 0, len(st.calls))
+	for k := range st.calls {
+		keys = append(keys, k)
 	}
-	sort.Strings(names)
+	sort.Strings(keys)
 	seen := map[string]int{}
 	var sig strings.Builder
-	sig.WriteString(sc.Mode)
-	namesWithFullCycle := 0
-	for _, n := range names {
+	fullCycle := 0
+	for _, k := range keys {
 		ops := map[string]bool{}
 		closed := false
 		var h []string
-		for _, c := range st.calls[n] {
+		for _, c := range st.calls[k] {
 			seen[c.Op]++
 			ops[c.Op] = true
 			if c.Op == "init" && closed {
@@ -1044,15 +1001,23 @@ func c20Exec(r *sim.Run, sci interface{}) {
 			h = append(h, x)
 		}
 		if ops["init"] && ops["inherit"] && ops["close"] {
-			namesWithFullCycle++
+			fullCycle++
 		}
-		r.Eventf("%s: %s", n, c20History(st.calls[n]))
-		fmt.Fprintf(&sig, "|%s=%s", n, strings.Join(h, ","))
+		if strings.HasSuffix(k, "/trf") {
+			seen["trf"]++
+		} else {
+			seen["biz"]++
+		}
+		r.Eventf("%s: %s", k, c20History(st.calls[k]))
+		fmt.Fprintf(&sig, "|%s=%s", k, strings.Join(h, ","))
 	}
 	for _, op := range []string{"init", "inherit", "close"} {
 		if seen[op] > 0 {
 			r.Probe("c20." + op)
 		}
+	}
+	if seen["trf"] > 0 && seen["biz"] > 0 {
+		r.Probe("c20.both_controllers_received_calls")
 	}
 	if st.late > 0 {
 		r.Probe("c20.closed_at_shutdown")
@@ -1061,34 +1026,42 @@ func c20Exec(r *sim.Run, sci interface{}) {
 	prev := map[string]c20Obj{}
 	for i := 0; i <= sent && i < len(sc.Snaps); i++ {
 		cur := c20SnapMap(sc.Snaps[i])
-		changes, same := 0, 0
+		changes, kcs := 0, 0
+		doms := map[string]bool{}
 		for _, n := range c20SortedNames(prev, cur) {
 			p, was := prev[n]
 			c, is := cur[n]
 			switch {
 			case was && is && p.Kind == c.Kind && p.Rev == c.Rev:
-				same++
-				if managed[c.Kind] {
-					r.Probe("c20.unchanged_object_resent")
-					if p.Alt != c.Alt {
-						r.Probe("c20.unchanged_object_other_yaml_formatting")
-					}
+				r.Probe("c20.unchanged_object_resent")
+				if p.Alt != c.Alt {
+					r.Probe("c20.unchanged_object_other_yaml_formatting")
 				}
+				continue
 			case was && is && p.Kind != c.Kind:
-				changes++
-				r.Probe("c20.kind_change_delivered")
-				if managed[p.Kind] != managed[c.Kind] {
-					r.Probe("c20.kind_change_across_categories")
+				kcs++
+				if c20Domain(p.Kind) != c20Domain(c.Kind) {
+					r.Probe("c20.kind_change_across_controllers")
+				} else {
+					r.Probe("c20.kind_change_within_controller")
 				}
-			case was || is:
-				changes++
-				if is && !managed[c.Kind] {
-					r.Probe("c20.unmanaged_kind_in_snapshot")
-				}
+			}
+			changes++
+			if was {
+				doms[c20Domain(p.Kind)] = true
+			}
+			if is {
+				doms[c20Domain(c.Kind)] = true
 			}
 		}
 		if changes >= 2 {
 			r.Probe("c20.several_changes_in_one_snapshot")
+		}
+		if kcs >= 1 && changes >= 2 {
+			r.Probe("c20.kind_change_with_other_changes_in_snapshot")
+		}
+		if len(doms) == 2 {
+			r.Probe("c20.snapshot_with_events_for_both_watchers")
 		}
 		if changes == 0 && i > 0 {
 			r.Probe("c20.identical_snapshot_resent")
@@ -1101,20 +1074,20 @@ func c20Exec(r *sim.Run, sci interface{}) {
 	if seen["panic"] > 0 {
 		r.Probe("c20.callback_panicked")
 		// did a sibling have work in the same snapshot?
-		exp := c20Expect(sc, managed, sent)
+		exp := c20Expect(sc, sent)
 		bySnap := map[int]map[string]bool{}
-		for n, es := range exp {
+		for k, es := range exp {
 			for _, e := range es {
 				if bySnap[e.Snap] == nil {
 					bySnap[e.Snap] = map[string]bool{}
 				}
-				bySnap[e.Snap][n] = true
+				bySnap[e.Snap][k] = true
 			}
 		}
 		hit := false
-		for _, n := range names {
-			for i, c := range st.calls[n] {
-				if c.Panicked && i < len(exp[n]) && len(bySnap[exp[n][i].Snap]) >= 2 {
+		for _, k := range keys {
+			for i, c := range st.calls[k] {
+				if c.Panicked && i < len(exp[k]) && len(bySnap[exp[k][i].Snap]) >= 2 {
 					hit = true
 				}
 			}
@@ -1123,13 +1096,10 @@ func c20Exec(r *sim.Run, sci interface{}) {
 			r.Probe("c20.panic_in_snapshot_with_sibling_changes")
 		}
 	}
-	if len(tainted) > 0 {
-		r.Probe("c20.kind_change_mishandled")
-	}
-	if seen["init"] > 0 && seen["inherit"] > 0 && seen["close"] > 0 && len(names) >= 2 {
+	if seen["init"] > 0 && seen["inherit"] > 0 && seen["close"] > 0 && len(keys) >= 2 {
 		r.Nontrivial()
 	}
-	if namesWithFullCycle > 0 {
+	if fullCycle > 0 {
 		r.Probe("c20.name_with_init_inherit_close")
 	}
 	r.SetSig(sig.String())
@@ -1143,24 +1113,24 @@ func TestVerifC20(t *testing.T) {
 		Exec:          c20Exec,
 		MaxSteps:      40000,
 		DeadlockClass: "C20.deadlock",
-		Rule: "scenario = mode (business controllers under Supervisor | pipeline/traffic-gate objects under RawConfigTrafficController+TrafficController) + 2-12 full snapshots over <=4 names " +
-			"(appear, spec change, unchanged incl. other YAML formatting, disappear, reappear, change of kind, several at once) pushed with drawn gaps through a syncer channel of drawn capacity, " +
-			"panics planned at the n-th Init/Inherit/Close of a name, callback delays, concurrent reader tasks; non-trivial = at least one Init, one Inherit and one Close were executed and >=2 names received calls; " +
-			"distinct = distinct (mode, per-name call histories with kinds, revisions and panics) signatures",
-		Real: []string{"pkg/supervisor (MustNew, ObjectRegistry.run/applyConfig/NewWatcher, Supervisor.run/handleEvent, ObjectEntity.*WithRecovery, Spec/NewSpec)",
-			"pkg/object/trafficcontroller (TrafficController Create/Update/Delete TrafficGate)", "pkg/object/rawconfigtrafficcontroller (watcher loop, handleEvent)"},
+		Rule: "scenario = 2-18 full snapshots over <=4 names and 4 kinds of two controller domains (appear, spec change, unchanged incl. other YAML formatting, disappear, reappear, " +
+			"change of kind inside a domain and across domains, several at once) pushed with drawn gaps through a syncer channel of drawn capacity while Supervisor and RawConfigTrafficController both watch the registry, " +
+			"panics planned at the n-th Init/Inherit/Close of a name, callback delays, backlog runs, concurrent reader tasks; non-trivial = at least one Init, one Inherit and one Close were executed and >=2 (name, domain) lifecycles received calls; " +
+			"distinct = distinct per-(name, domain) call histories with kinds, revisions and panics",
+		Real: []string{"pkg/supervisor (MustNew, ObjectRegistry.run/applyConfig/NewWatcher with both production watchers, Supervisor.run/handleEvent, ObjectEntity.*WithRecovery, Spec/NewSpec)",
+			"pkg/object/trafficcontroller (TrafficController Create/Update/Delete TrafficGate)", "pkg/object/rawconfigtrafficcontroller (Init/reload, watcher loop, handleEvent)"},
 		Stub: []string{"cluster -> clustertest.MockedCluster, syncer channel fed by the harness", "four recording object kinds registered by the harness (2 business controllers, 1 pipeline-category, 1 traffic-gate-category)",
-			"sync.Mutex/sync.Map -> simsync (same semantics + gates)", "logger -> nop", "running_objects.yaml is written to a non-existent directory (write fails, logged)"},
+			"sync.Mutex/sync.Map -> simsync (same semantics + gates); map ranges, multi-case selects and goroutine starts of the three packages determinised by check.json map_ranges/selects/go_gates", "logger -> nop",
+			"running_objects.yaml is written to a non-existent directory (write fails, logged)"},
 		Assumptions: []string{
+			"one lifecycle per (name, controller domain): Supervisor and RawConfigTrafficController reconcile on independent goroutines, so for a change of kind across domains the order of Close(old) and Init(new) is free; inside a domain a change of kind must Close(old) before Init(new)",
 			"calls are counted whether or not they panic; an object whose Init/Inherit panicked still is the live generation of its name; after a panicking Inherit the new and the previous instance are both accepted as next predecessor / Close target",
 			"a YAML-equivalent document (key order, quoting) is an unchanged spec",
-			"kinds of a category that nobody watches in the run's mode are unmanaged: no call at all is expected on them; a change from/to such a kind still requires Close(old)/Init(new) of the managed side",
-			"one registry watcher at a time (ObjectRegistry.applyConfig ranges over the watcher map in Go's random order, which the simulator cannot replay): biz mode = Supervisor's watcher without RawConfigTrafficController, traffic mode = RawConfigTrafficController's watcher with the Supervisor's watcher closed by the harness",
-			"the relative order of calls on different names inside one snapshot is not judged (map order); callbacks gate and sleep independent of the object",
+			"the relative order of calls on different names inside one snapshot is not judged",
 			"every snapshot put on the syncer channel counts as applied, in order; Supervisor.Close (shutdown) is not judged",
-			"after an unhandled change of kind (class C20.kind-change) the name is no longer judged in that run; runs with a change of kind change at most one name per snapshot",
-			"only the first snapshot may reach the registry before Supervisor's watcher exists (earlier snapshots are legitimately folded into the watcher's first event)",
-			"quiescence = a 2 h simulated sleep returns (scheduler stalls are bounded by 20 x 60 s) and no snapshot/watcher event is pending",
+			"only the first snapshot may reach the registry before the watchers exist (earlier snapshots are legitimately folded into a watcher's first event)",
+			"quiescence = a 2 h simulated sleep returns during which the scheduler stalled for less than 2 h (r.StalledFor) and no snapshot/watcher event is pending",
+			"the real Pipeline kind is not used: all traffic test kinds live in TrafficController's traffic-gate map",
 		},
 	})
 }
